@@ -113,14 +113,13 @@ def prepare_examples(ctx, extreme_rain=True):
         return ex
     from core import REPO
     shutil.copytree(os.path.join(REPO, "examples"), ex)
-    # a second measurement date after the first fertilisation (project ex1): exercises the measurement-overwrite day
+    # a measurement row dated inside the simulated period, after a fertilisation has started to dissolve (project ex1,
+    # fixed-width measurement file, row selected by plot id; the reader keeps the first matching row only):
+    # exercises the measurement-overwrite day of run.go
     ep = os.path.join(ex, "project", "ex1", "endit_ex1.txt")
-    t = open(ep).read().split("\n")
-    row = "ALLE      04201982 0030 0020 0010 1 0.250 0.250 0.250 0010   0010    0010     0.250 0.250  0.250  "
-    t = [l for l in t if l.strip()]
-    if t and t[-1].strip() == "end":
-        t = t[:-1] + [row, "end"]
-    open(ep, "w").write("\n".join(t) + "\n")
+    t = [l for l in open(ep).read().split("\n") if l.strip() and l.strip() != "end"]
+    t.append("10001     04201982 0025 0015 0010 1 0.500 0.500 0.500 0010   0010    0010     0.600 0.600  0.600  ")
+    open(ep, "w").write("\n".join(t + ["end"]) + "\n")
     if extreme_rain:
         rnd = random.Random(ctx.seed)
         src = os.path.join(ex, "weather", "historical")
